@@ -270,8 +270,9 @@ func debugOnlyDiagnostics(c Cfg, rec *Recorder) *Disc {
 					return discf("debug mode changes %s of a successful preflight: %s", k, where)
 				}
 			}
-			if !eqStrs(on.Hdr[hACAH], off.Hdr[hACAH]) && !(full != "" && eq1(on.Hdr[hACAH], full)) {
-				return discf("debug mode changes ACAH of a successful preflight to something other than the full configured list %q: %s", full, where)
+			_, hasACRH := r.Get(hACRH)
+			if !eqStrs(on.Hdr[hACAH], off.Hdr[hACAH]) && !(hasACRH && full != "" && eq1(on.Hdr[hACAH], full)) {
+				return discf("debug mode changes ACAH of a successful preflight (request carries ACRH: %v) to something other than the full configured list %q in answer to requested headers: %s", hasACRH, full, where)
 			}
 			continue
 		}
